@@ -284,7 +284,7 @@ def load_known_findings():
         return json.load(f).get("findings", [])
 
 
-def aggregate(cid, mod, tier, seed, results, wall, extra_cov=None):
+def aggregate(cid, mod, tier, seed, results, wall, extra_cov=None, partial=False):
     ev = 0
     distinct = set()
     counters = {}
@@ -306,14 +306,14 @@ def aggregate(cid, mod, tier, seed, results, wall, extra_cov=None):
         violations += [dict(v, shard=r["shard"]) for v in r["violations"]]
         inconcl += [f"[{r['shard']}] {x}" for x in r["inconclusive"]]
         notes += r.get("notes", [])
-    for k, m in getattr(mod, "REQUIRE", {}).items():
+    for k, m in ({} if partial else getattr(mod, "REQUIRE", {})).items():
         if isinstance(m, dict):
             m = m.get(tier, 0)
         if counters.get(k, 0) < m:
             inconcl.append(f"counter {k}={counters.get(k, 0)} below required minimum {m}")
     if ev == 0:
         inconcl.append("no execution of the real code was observed")
-    if len(distinct) < 2:
+    if len(distinct) < 2 and not partial:
         inconcl.append("fewer than 2 distinct non-trivial cases")
 
     known = [k for k in load_known_findings() if k.get("property") == cid and k.get("status") == "open"]
@@ -388,7 +388,8 @@ def main(argv=None):
         s.setdefault("seed", seed)
     results = run_shards(cid, shards, nproc=a.nproc, timeout=getattr(mod, "SHARD_TIMEOUT", {}).get(tier, 1500), mod=mod)
     wall = time.time() - t0
-    evidence, real, knownhits, inconcl = aggregate(cid, mod, tier, seed, results, wall)
+    # a replay or an --only run covers part of the workload: coverage minima do not apply, verdict = violations seen or not
+    evidence, real, knownhits, inconcl = aggregate(cid, mod, tier, seed, results, wall, partial=bool(a.replay or a.only))
     if not a.no_evidence and not a.replay and not a.only:
         tmp = os.path.join(env.EVIDENCE, f".{cid}.json.tmp")
         with open(tmp, "w") as f:
